@@ -131,6 +131,50 @@ func checkC20(p *Prog, r *Report) {
 			errV := extractOf(c, tu.Len()-1)
 			for k := 0; k < tu.Len()-1; k++ {
 				if !nillable(tu.At(k).Type()) {
+					/* A struct result: on the failing side its nillable
+					fields are nil (a deferred close-on-error, written
+					out at the error returns, calls through one). */
+					val := extractOf(c, k)
+					if _, isSt := tu.At(k).Type().Underlying().(*types.Struct); !isSt || nil == val || nil == errV {
+						continue
+					}
+					tests := nilTestsOf(fn, errV)
+					var fieldsOf func(v ssa.Value)
+					fieldsOf = func(v ssa.Value) {
+						for _, ref := range *v.Referrers() {
+							f, ok := ref.(*ssa.Field)
+							if !ok || f.X != v {
+								continue
+							}
+							if !nillable(f.Type()) {
+								fieldsOf(f)
+								continue
+							}
+							for _, d := range derefUses(f) {
+								for _, t := range tests {
+									if edgeDominates(t.If, 1-t.NilSucc, d) {
+										rUse.Bad(fmt.Sprintf("%s→%s:result#%d-on-error-edge", fnName(fn), calleeName(c.Common()), k), posOf(d), "a field of a result of %s is dereferenced where its error is known to be non-nil: the result is the zero value there and the program panics instead of reporting the failure", calleeName(c.Common()))
+									}
+								}
+							}
+						}
+					}
+					fieldsOf(val)
+					for _, ref := range *val.Referrers() {
+						ci, ok := ref.(ssa.CallInstruction)
+						if !ok {
+							continue
+						}
+						sc := ci.Common().StaticCallee()
+						if nil == sc || nil == sc.Signature.Recv() || 0 == len(ci.Common().Args) || ci.Common().Args[0] != val {
+							continue
+						}
+						for _, t := range tests {
+							if edgeDominates(t.If, 1-t.NilSucc, ci) {
+								rUse.Bad(fmt.Sprintf("%s→%s:result#%d-on-error-edge", fnName(fn), calleeName(c.Common()), k), posOf(ci), "a method (%s) is called on a result of %s where its error is known to be non-nil: the value is the zero value there (nil embedded fields) and the program panics instead of reporting the failure", sc.Name(), calleeName(c.Common()))
+							}
+						}
+					}
 					continue
 				}
 				val := extractOf(c, k)
@@ -379,9 +423,33 @@ func reportsErr(i ssa.Instruction, errV ssa.Value, known map[*ssa.Function]print
 		if e == errV {
 			return true
 		}
-		/* A phi / reload of the same error. */
-		for _, x := range valueRoots(e, nil) {
-			if x.V == errV {
+		/* A phi / reload of the same error, or an error made from it
+		(fmt.Errorf("opening %s: %w", name, err): its text ends with the
+		cause's). */
+		if carriesErr(e, errV, 0) {
+			return true
+		}
+	}
+	return false
+}
+
+func carriesErr(e, errV ssa.Value, depth int) bool {
+	if depth > 3 {
+		return false
+	}
+	if e == errV {
+		return true
+	}
+	for _, x := range valueRoots(e, nil) {
+		if x.V == errV {
+			return true
+		}
+		c, ok := x.V.(*ssa.Call)
+		if !ok || "fmt.Errorf" != calleeName(c.Common()) {
+			continue
+		}
+		for _, a := range variadicElems(c.Common()) {
+			if a = stripConv(a, false); typeIsError(a) && carriesErr(a, errV, depth+1) {
 				return true
 			}
 		}
@@ -461,7 +529,25 @@ func checkC20Steps(p *Prog, r *Report, ru *Rule) {
 				}
 			}
 			/* The Ctrl+I generator called directly by rmain (for -print-ctrl-i). */
+			isGen := false
 			if cf, _ := closureOf(resolveLocalFunc(call.Common().Value)); nil != cf && cf.Parent() == rm {
+				isGen = true
+			} else if nil == call.Common().StaticCallee() && !call.Common().IsInvoke() {
+				/* One of several function literals of the program (a
+				constructor of the generator folded into rmain). */
+				ls := phiLeaves(call.Common().Value)
+				isGen = len(ls) > 0
+				for _, l := range ls {
+					cf, _ := closureOf(l.V)
+					if nil == cf {
+						cf, _ = l.V.(*ssa.Function)
+					}
+					if nil == cf || nil == cf.Parent() || cf.Pkg != rm.Pkg {
+						isGen = false
+					}
+				}
+			}
+			if isGen {
 				found["insertGen"] = true
 				var errV ssa.Value
 				if e := extractOf(call, 1); nil != e {
